@@ -27,6 +27,7 @@ observation (`crash signalN`), not a failure of the check.
 """
 from __future__ import annotations
 
+import hashlib
 import json
 import os
 import struct
@@ -363,8 +364,8 @@ def known_class(fn: gen.Fn, args: list, ri: str, rc: str) -> dict:
                "operands": "both short, one beyond 2**53"}
     elif fn.group == "mixedfloat" and ints:
         a = ints[0]
-        if rc.startswith("exc OverflowError") and abs(a) >= 2 ** 1023 and fn.ret == "bool":
-            obs = {"class": "int-float-comparison-converts-int", "effect": "OverflowError", "operand": "abs(int) >= 2**1023"}
+        if rc.startswith("exc OverflowError") and ri.startswith("ok bool") and abs(a) >= 2 ** 1024 - 2 ** 970 and fn.ret == "bool":
+            obs = {"class": "int-float-comparison-converts-int", "effect": "OverflowError", "operand": "abs(int) beyond the double range"}
         elif fn.ret == "bool" and abs(a) > 2 ** 53 and ri.startswith("ok bool") and rc.startswith("ok bool"):
             obs = {"class": "int-float-comparison-converts-int", "effect": "rounded", "operand": "abs(int) > 2**53"}
     return obs
@@ -715,6 +716,7 @@ def main(ctx: Ctx) -> None:
         "(function, operands).")
     fns = gen.functions()
     src = gen.source(fns)
+    _ = ctx.tmp                # create the scratch directory before the build threads race for it
     ex = ThreadPoolExecutor(max_workers=2)
     builds = {opt: ex.submit(build_harness, ctx, opt, src) for opt in ("0", "3")}
 
@@ -748,7 +750,7 @@ def main(ctx: Ctx) -> None:
     ctx.trusted(
         "translate/cfast.py: C11 integer promotions / usual arithmetic conversions on LP64, signed `>>` arithmetic, "
         "signed overflow wraps (-fno-strict-overflow); self-test on every run (fixed snippet -> literal Lean, 9 mutations, "
-        "9 rejected constructs)",
+        "9 rejected constructs); translate/irops.py self-test (4 fixed functions -> literal Lean, 4 mutants must differ)",
         "out-of-line slow paths of int_ops.c (CPyTagged_Add_ …): trusted to compute CPython's result (Tagged.slowSpec); "
         "exercised by the compiled harness on long operands",
         "gcc's translation of the C subset (exercised by the compiled-harness correspondence at -O0 and -O3)",
@@ -900,7 +902,7 @@ def process_chunk(ctx: Ctx, cases: list[tuple[gen.Fn, list, str]], nchunk: int, 
         if mprob:
             st.model_problems += 1
         anydiff = False
-        ckey = "%s:%x" % (name, hash(tuple(repr(a) for a in args)) & 0xFFFFFFFFFFFFFFF)
+        ckey = name + ":" + hashlib.blake2b(repr(args).encode(), digest_size=7).hexdigest()
         for opt, res in results.items():
             ri, rc = res.get(i, ("missing - -", "missing - -"))
             if ri.startswith("skipped"):
